@@ -151,3 +151,38 @@ class WriteFile(_Reject):
             else:
                 out.append(("failed-call-leaves-member-lists-unchanged", len(muts) == 0, ("C15",)))
         return out
+
+
+@contract
+class MakeFileInfoFromName(Contract):
+    """members added by writestr()/writef() always occupy a substream (Worker.archive compresses their data whatever
+    its length), so they are never marked as empty streams - also when the data has length zero"""
+
+    target = PY + "SevenZipFile._make_file_info_from_name"
+    props = ("C01", "C15", "C08")
+    abstract = True
+    pure = ("pathlib.Path", "Path", "as_posix", "from_now", "getattr")
+    noraise = ("pathlib.Path", "Path", "as_posix", "from_now", "getattr")
+    frame_preserving = ("pathlib.Path", "Path", "as_posix", "from_now", "getattr")
+
+    def setup(self, c):
+        return {"self_": c.opq("self"), "bio": c.opq("bio"), "size": c.int("size"), "arcname": c.opq("arcname")}
+
+    def raises(self):
+        return [RaiseSpec("Exception")]
+
+    def ensures(self, c, old, result, **b):
+        eng = c.eng
+        if eng.ctx_mode == "assume":
+            return []
+        from pyvc.engine import Ref
+
+        ok = isinstance(result, Ref) and eng.kind(result) == "dict"
+        items = eng.get_field(result, "items") if ok else {}
+        es = items.get("emptystream", "missing")
+        return [
+            ("returns-a-record", bool(ok)),
+            ("never-an-empty-stream", bool(es is False)),
+            ("size-recorded", bool(items.get("uncompressed") is b["size"])),
+            ("data-kept", bool(items.get("data") is b["bio"] and items.get("origin", 0) is None)),
+        ]
